@@ -584,7 +584,10 @@ class ConcurrentVector {
     ++e;
     auto it = begin();
     it += (pos - it);
-    return std::move(pos + 1, const_iterator(e), it);
+    auto newEnd = std::move(pos + 1, const_iterator(e), it);
+    // The last element has been moved from and is no longer part of the vector.
+    newEnd->~T();
+    return newEnd;
   }
 
   /**
@@ -606,13 +609,13 @@ class ConcurrentVector {
 
     auto e_it = std::move(last, cend(), it);
 
-    if (e_it < last) {
-      // remove any values that were not already moved into
-      do {
-        --last;
-        last->~T();
-      } while (e_it != last);
-    }
+    // The len elements in [e_it, end()) are no longer part of the vector (they were either not
+    // moved into, or have been moved from).
+    auto tail = end();
+    do {
+      --tail;
+      tail->~T();
+    } while (e_it != tail);
     size_.fetch_sub(len, std::memory_order_relaxed);
     return e_it;
   }
